@@ -69,7 +69,12 @@ func (r *c04bReq) MergeSplit(_ context.Context, max int, _ request.SizerType, o 
 		cur = append(cur, it)
 		w += it.W
 	}
-	// like the real implementations, the receiver is what remains (the last chunk)
+	// like the real implementations, the receiver is what remains (the last chunk) - and an indivisible item that is larger
+	// than max on its own is extracted alone, which leaves an EMPTY remainder behind it
+	if len(cur) == 1 && cur[0].W > max {
+		res = append(res, &c04bReq{items: cur})
+		cur = nil
+	}
 	r.items = cur
 	res = append(res, r)
 	return res, nil
@@ -273,9 +278,9 @@ func c04bCheck(c *c04bCase, o *c04bObs) (string, string) {
 		if !b.finished {
 			return "batcher:export-unfinished", fmt.Sprintf("%s: batch %d %v still in flight after Shutdown returned", desc, bi, b.ids)
 		}
-		if len(b.ids) == 0 {
-			return "batcher:empty-batch", fmt.Sprintf("%s: batch %d is empty", desc, bi)
-		}
+		// (an EMPTY batch - the parked empty remainder of an oversized item, or an empty request, flushed by the timer or by
+		// Shutdown - carries no item: the statement's clauses say nothing about it, so it is not judged; a first version
+		// of this oracle reported it, see DESIGN E.3)
 		if c.Max > 0 && int64(b.weight) > c.Max && len(b.ids) > 1 {
 			return "batcher:oversize", fmt.Sprintf("%s: batch %d %v has size %d > max_size %d", desc, bi, b.ids, b.weight, c.Max)
 		}
@@ -338,21 +343,44 @@ func c04bCheck(c *c04bCase, o *c04bObs) (string, string) {
 			// request's first item did not fit into the space it had left, so the merged first chunk holds nothing of the request -
 			// but Consume attaches the request's callback to it unconditionally
 			class := ""
-			firstW := o.itemW[o.reqItems[r][0]]
+			its := o.reqItems[r]
+			firstW := o.itemW[its[0]]
+			lastW := o.itemW[its[len(its)-1]]
 			b := o.batches[foreign[0]]
 			tagged := len(c.Poison) == 1 && c.Poison[0] == -1
-			// tagged run: `foreign` is exactly the set of batches whose outcome reached the callback; with explicit failure sets
-			// it is every failed batch, of which at least one reached it
-			n := 0
-			for _, bi := range foreign {
-				fb := o.batches[bi]
-				if bi < first && c.Max > 0 && int64(fb.weight+firstW) > c.Max {
-					n++
-					b = fb
+			lastOwn := -1
+			for bi := range in {
+				if bi > lastOwn {
+					lastOwn = bi
 				}
 			}
-			if (tagged && len(foreign) == 1 && n == 1) || (!tagged && n >= 1) {
-				class = ":first-item-did-not-fit-the-current-batch"
+			// tagged run: `foreign` is exactly the set of batches whose outcome reached the callback - EVERY one of them has to
+			// be explained by a recorded root cause; with explicit failure sets it is every failed batch, of which at least one
+			// reached it - one explained batch suffices
+			nA, nB := 0, 0
+			for _, bi := range foreign {
+				fb := o.batches[bi]
+				switch {
+				case bi < first && c.Max > 0 && int64(fb.weight+firstW) > c.Max:
+					// (A) the batch was the CURRENT batch when the request arrived and the request's first item did not fit into
+					// the space it had left: the merged first chunk holds nothing of the request, but Consume attaches the callback
+					nA++
+					b = fb
+				case bi > lastOwn && c.Max > 0 && int64(lastW) > c.Max:
+					// (B) the request's LAST item is larger than max_size on its own: it is sent alone and the split leaves an EMPTY
+					// remainder, which Consume parks as the current batch together with a reference to the request's callback
+					nB++
+					if nA == 0 {
+						b = fb
+					}
+				}
+			}
+			if (tagged && nA+nB == len(foreign)) || (!tagged && nA+nB >= 1) {
+				if nA > 0 {
+					class = ":first-item-did-not-fit-the-current-batch"
+				} else {
+					class = ":empty-remainder-of-an-oversized-last-item-parked-with-the-callback"
+				}
 			}
 			return "batcher:error-misattributed" + class, fmt.Sprintf("%s: request %d (items %v, in batches %v) received the outcome of batch(es) %v %v, which hold no part of it: callback reported %v", desc, r, o.reqItems[r], keys(in), foreign, b.ids, got)
 		}
@@ -425,6 +453,8 @@ func TestVerifBatcher(t *testing.T) {
 		}
 	}
 	rec(nil)
+	// on top of the full product: an oversized single/last item (empty remainder parked in the batcher) and the empty request
+	seqs = append(seqs, [][]int{{3}}, [][]int{{}}, [][]int{{1}, {3}}, [][]int{{3}, {1}}, [][]int{{}, {1}}, [][]int{{1}, {}}, [][]int{{3}, {3}})
 	type cfg struct {
 		min, max int64
 		workers  int
